@@ -1,5 +1,5 @@
 SPECIFICATION TSpec
 CONSTANTS ProtectedNames = {"Sign", "SignTransaction", "SendTransaction", "SignAndSendTransaction"}
-INVARIANTS NoSignUnlessOptInT TransportsT SkipT
+INVARIANTS OptInExactT NoSignUnlessOptInT TransportsT SkipT
 POSTCONDITION TraceAccepted
 CHECK_DEADLOCK FALSE
